@@ -97,6 +97,30 @@ GROUPS2 = {
               {'decoded[0]': ('tag0', N), 'self.is_test_only': ('t0', B), 'self.is_bounceable': ('b0', B)}, ['tag0', 't0', 'b0'], ret='Bool',
               ref='(b0 || (if (tag0 &&& 0x80) != 0 then tag0 ^^^ 0x80 else tag0) == 0x11)', grid={'tag0': list(range(256)), 't0': [False], 'b0': FLAG}),
         ]),
+    # ------------------------------------------------------------------ C09
+    'DictKey': dict(
+        src='pytoniq_core/boc/hashmap/hashmap.py', imports=[], ref_imports=[],
+        targets=[
+            T('keyRejected', 'HashMap', 'set_int_key', ('raise_if', 'Key sizes must be the same'),
+              {'int_key': ('key', Z), 'self.size': ('size', N)}, ['key', 'size'], ret='Bool',
+              ref='decide (key < 0 ∨ Model.bitLength key.natAbs > size)',
+              grid={'key': [v for v in arith.SIGNED if abs(v) < 2 ** 70][:140], 'size': [0, 1, 2, 3, 7, 8, 9, 16, 31, 32, 33, 63, 64, 65, 256, 257, 1023]}),
+        ]),
+    # ------------------------------------------------------------------ C17
+    'VmStackTests': dict(
+        src='pytoniq_core/tlb/vm_stack.py', imports=[], ref_imports=[],
+        targets=[
+            T('tinyIntFits', 'VmStackValue', 'serialize', ('match', "if __X__:\n    builder.store_bytes(b'\\x01')\n    ...\nelse:\n    ..."),
+              {'value': ('value', Z)}, ['value'], ret='Bool',
+              ref='decide (-(2 ^ 63 : Int) ≤ value ∧ value < (2 ^ 63 : Int))',
+              grid={'value': [v for v in arith.SIGNED if 2 ** 60 <= abs(v) + 2 < 2 ** 67] + [0, 1, -1, 2 ** 256, -2 ** 256]}),
+            T('cellSliceBitsBad', 'VmCellSlice', 'deserialize', ('raise_if', 'st_bits'),
+              {'st_bits': ('st', N), 'end_bits': ('en', N)}, ['st', 'en'], ret='Bool', ref='decide (¬ st ≤ en)',
+              grid={'st': [0, 1, 2, 511, 512, 1022, 1023], 'en': [0, 1, 2, 511, 512, 1022, 1023]}),
+            T('cellSliceRefsBad', 'VmCellSlice', 'deserialize', ('raise_if', 'st_ref'),
+              {'st_ref': ('sr', N), 'end_ref': ('er', N)}, ['sr', 'er'], ret='Bool', ref='decide (¬ sr ≤ er)',
+              grid={'sr': list(range(8)), 'er': list(range(8))}),
+        ]),
 }
 
 arith.GROUPS.update(GROUPS2)
